@@ -178,6 +178,20 @@ def main(tier, replay=None):
                         c.events.append({"ev": "DecodeAny", "bytes": list(raw), "outcome": "IndexError", "v": []})
                     except Exception as exc:
                         c.events.append({"ev": "DecodeAny", "bytes": list(raw), "outcome": type(exc).__name__, "v": []})
+                # (c) decode into a target that already holds a value (the runtime ORs chunks into the fields)
+                for _ in range(2):
+                    oldv, newv = gen.gen_value(rng, t, "rand"), gen.gen_value(rng, t, "rand")
+                    src = cls()
+                    drive.py_set(src, t, newv)
+                    wire = bytes(src.encode())
+                    o = cls()
+                    drive.py_set(o, t, oldv)
+                    try:
+                        o.decode(bytearray(wire))
+                        c.events.append({"ev": "DecodeOnto", "old": gen.sm_tree(t, oldv), "bytes": list(wire),
+                                         "v": gen.sm_tree(t, drive.py_get(o, t))})
+                    except Exception as exc:
+                        c.events.append({"ev": "DecodeAny", "bytes": list(wire), "outcome": "onto:" + type(exc).__name__, "v": []})
                 # (b) newer receiver, older sender
                 if gen.has_ext(t):
                     versions, descr = _evolve.chain(base, rng, 2)
@@ -224,6 +238,8 @@ def main(tier, replay=None):
             "what": "Wire!Dec on arbitrary buffers (value or read-outside-buffer = IndexError) and on older-sender bytes "
                     "decoded by a newer receiver; informational, never a verdict",
             "decodes": nev, "runs_ending_outside_the_buffer": outside,
+            "decodes_into_a_target_holding_a_value (OntoV: bitwise OR per leaf, booleans assigned)":
+                sum(1 for tr in xtraces for e in tr["events"] if e["ev"] == "DecodeOnto"),
             "traces_not_explained_by_the_specification": [why for ok, why in xv if not ok][:5]}
     rep.cov["rule"] = ("U_rand schemas x {zero, all-ones/min, boundary-biased random} values plus the slice "
                        "{enum width 1..64} x {bit offset 0..7} x {scalar, array element}; one evaluation is one "
